@@ -193,6 +193,9 @@ func runCase(ws *WS, workdir, regal string, idx int) Result {
 	res.Cmd = cmdArgs
 	cmd := exec.Command(regal, cmdArgs...)
 	cmd.Dir = cwd
+	if idx%4 != 0 { // most runs with two OS threads (cheaper when many run at once), every fourth with the default
+		cmd.Env = append(os.Environ(), "GOMAXPROCS=2")
+	}
 	var so, se bytes.Buffer
 	cmd.Stdout, cmd.Stderr = &so, &se
 	err = cmd.Run()
@@ -300,6 +303,13 @@ func genWS(r *hutil.Rng, n int) *WS {
 	}
 	if r.Below(7) == 0 {
 		ws.Ignore = hutil.Choice(r, []string{"q/", "a/", "foo/"})
+	}
+	if ws.Ignore != "" {
+		// a file moved below an ignored directory is not linted any more: whether its pending content fix was
+		// applied before the move is schedule dependent, so workspaces with an ignore pattern have clean files only
+		for i := range ws.Files {
+			ws.Files[i].Dirty = false
+		}
 	}
 	ws.DryRun = r.Below(6) == 0
 	// a path must not be both a file and a directory
